@@ -363,6 +363,32 @@ def gs_schedule(f, forward):
     if bad_own:
         return False, bad_own
     if raises_own and raises_other:
+        # the level that pushes the not-yet-swept neighbours is the FINAL level of the row: no update of the running maximum l is
+        # reachable from a `level[c] = max(level[c], l + 1)` before l is re-initialised for the next row
+        from effects import path_between
+        owns, others, lvar = [], [], None
+        for loop in row_loop(f):
+            for n in walk(loop['b']):
+                if n['k'] != 'bin' or n['op'] != '=':
+                    continue
+                lhs, rhs = show(n['x']), show(n['y'])
+                if lhs.startswith('level[') and 'std::max' in (unwrap(n['y']).get('f') or '') and unwrap(n['x'])['k'] == 'idx':
+                    if any(a_ != lhs for a_ in [show(t) for t in unwrap(n['y']).get('a', [])]):
+                        others.append(n)
+                elif 'level[' in rhs and unwrap(n['x'])['k'] == 'ref':
+                    owns.append(n)
+                    lvar = unwrap(n['x'])['d']
+        reinit = [n for n in f.nodes.values() if n['k'] == 'decl' and any(v['d'] == lvar for v in n['v'])] if lvar is not None else []
+        reinit += [n for n in f.nodes.values() if n['k'] == 'bin' and n['op'] == '=' and unwrap(n['x'])['k'] == 'ref' and unwrap(n['x'])['d'] == lvar and n not in owns]
+        if f.cfg is not None and reinit:
+            for o in others:
+                # only pushes that use the row's running level
+                if not any(x['k'] == 'ref' and x['d'] == lvar for x in walk(o['y'])):
+                    continue
+                for w in owns:
+                    if path_between(f, o, w, avoid=reinit):
+                        return False, ('`%s` at %s pushes a neighbour with a level of the row that is not final: `%s` at %s can still raise it afterwards '
+                                       '(the neighbour may end up on the same or an earlier level than the row that reads it)' % (show(o)[:50], f.where(o), show(w)[:40], f.where(w)))
         return True, ''
     if raises_own and not raises_other:
         return False, ('the schedule raises level[i] only from the columns already swept (c %s i); the sweep also reads x[c] of the rows not yet swept, '
@@ -372,16 +398,71 @@ def gs_schedule(f, forward):
 
 
 def ilu_schedule(f, lower):
-    """sptr_solve row i reads x[c] exactly for the columns stored in its triangular factor row: every stored column raises level[i]"""
+    """sptr_solve row i reads x[c] exactly for the columns stored in its triangular factor row: EVERY stored column raises level[i], i.e.
+    the running maximum l = max(l, level[col[j]] + 1) is taken in a loop whose index j runs over the whole row [ptr[i], ptr[i+1])
+    without a filter"""
     for loop in row_loop(f):
         for n in walk(loop['b']):
-            if n['k'] == 'bin' and n['op'] == '=' and any(x['k'] == 'call' and x.get('f') == 'std::max' for x in walk(n['y'])) and 'level[' in show(n['y']):
-                # no `continue` filter in the loop body: all columns count
-                conts = [m for m in walk(loop['b']) if m['k'] == 'continue']
+            if n['k'] == 'bin' and n['op'] == '=' and 'level[' in show(n['y']) and unwrap(n['x'])['k'] == 'ref':
+                y = unwrap(n['y'])
+                lhs = show(n['x'])
+                is_max = y['k'] == 'call' and y.get('f') == 'std::max' and lhs in [show(a) for a in y.get('a', [])]
+                if not is_max:
+                    return False, 'the level of the row is assigned `%s` at %s (not the running maximum over all stored columns)' % (show(n['y'])[:50], f.where(n))
+                # the enclosing loop over the row entries
+                inner = None
+                for a in f.ancestors(n):
+                    if a is loop:
+                        break
+                    if a['k'] in ('if', 'switch', 'cond'):
+                        return False, 'the level dependency at %s is taken conditionally: some stored columns do not raise the level of the row' % f.where(n)
+                    if a['k'] in ('for', 'rfor', 'while'):
+                        inner = a
+                        break
+                if inner is None:
+                    # the statement sits directly in the loop over the rows: is that loop itself the loop over the row entries?
+                    inner = loop if _full_row_range(loop) else None
+                    if inner is None:
+                        return False, ('the level of the row is raised at %s from a single stored column, not in a loop over the whole row: a row may share a level with a row '
+                                       'whose unknown it reads' % f.where(n))
+                if not _full_row_range(inner):
+                    return False, 'the loop at %s that derives the level does not run over the whole row [ptr[i], ptr[i+1])' % f.where(inner)
+                conts = [m for m in walk(inner['b']) if m['k'] in ('continue', 'break')]
                 if conts:
                     return False, 'some stored columns are skipped when the level of the row is computed'
                 return True, ''
     return False, 'no level dependency is derived from the row entries'
+
+
+def _full_row_range(L):
+    """for (j = X.ptr[i]; j < X.ptr[i+1]; ++j)  or a row iterator  for (a = row_begin(A, i); a; ++a)"""
+    if L['k'] != 'for' or L.get('init') is None or L.get('c') is None:
+        return False
+    init = [v for n in walk(L['init']) if n['k'] == 'decl' for v in n['v'] if v.get('init') is not None]
+    if not init:
+        return False
+    j = init[0]
+    ie = unwrap(j['init'])
+    c = unwrap(L['c'])
+    if ie is not None and ie['k'] == 'call' and (ie.get('f') or '').endswith('row_begin'):
+        return True       # a row iterator visits every stored entry of the row
+    if ie is None or ie['k'] != 'idx' or 'ptr' not in show(ie['b']):
+        return False
+    if c is None or c['k'] != 'bin' or c['op'] != '<' or unwrap(c['x'])['k'] != 'ref' or unwrap(c['x'])['d'] != j['d']:
+        return False
+    hi = unwrap(c['y'])
+    if hi is not None and hi['k'] == 'ref':
+        # e = X.ptr[i+1] declared in the same init
+        for v in init:
+            if v['d'] == hi['d']:
+                hi = unwrap(v['init'])
+    if hi is None or hi['k'] != 'idx' or show(hi['b']) != show(ie['b']):
+        return False
+    lo_i, hi_i = show(ie['x']), show(hi['x'])
+    if hi_i.replace(' ', '') != (lo_i + '+1').replace(' ', ''):
+        return False
+    inc = unwrap(L.get('inc')) if L.get('inc') is not None else None
+    return inc is not None and inc['k'] == 'un' and inc['op'] == '++' and unwrap(inc['e'])['k'] == 'ref' and unwrap(inc['e'])['d'] == j['d']
 
 
 def barrier_ok(f):
